@@ -830,6 +830,13 @@ class _Formatter:
                 return True  # ``--flag``
             if t.type == NAME and t.start == dash_tok.end:
                 return True  # ``-flag`` (no space — attached short flag)
+            if (
+                t.type == NUMBER
+                and t.start == dash_tok.end
+                and dash_idx > 0
+                and tokens[dash_idx - 1].end != dash_tok.start
+            ):
+                return True  # ``ls -1`` (space before, digit attached)
             return False
         return False
 
